@@ -181,6 +181,85 @@ inductive WKind where
   | delegate     -- free function forwarding to a method of its first parameter
   deriving DecidableEq, Repr
 
+/-- the value a wrapper hands back, as a term over the result of the forwarded C call (read off the body by
+    `tools/extract_cpp.py`: locals are substituted by their initialisers, so `char *rv = ::f(…); std::string rv2(rv);
+    …; return rv2;` is `string res`) -/
+inductive RetE where
+  | res                                       -- the value returned by the forwarded call, unchanged (`return rv;`)
+  | param (i : Nat)                           -- the i-th parameter of the function
+  | outArg (k : Nat)                          -- the local whose address is the k-th argument of the C call (`&nCrystals`)
+  | field (e : RetE) (name : String)          -- `e.name` / `e->name`
+  | complex (re im : RetE)                    -- `std::complex<double>(re, im)`
+  | string (e : RetE)                         -- `std::string(e)` from a `char *`
+  | elems (ctor : String) (e count : RetE)    -- a vector of `ctor(e[i])` for `i = 0 … count-1`, in this order
+  | object (cls : String) (e : RetE)          -- an object of class `cls` built from `e` by the converting constructor of the header
+  | adopt (e : RetE)                          -- stored in the member `cs` of the object under construction
+  | none                                      -- no value (`void`, constructors)
+  | other                                     -- anything else
+  deriving DecidableEq, Repr
+
+/-- one member initialiser of a constructor of the header; `src`/`count` name members of the object it reads (`p`) -/
+inductive FInit where
+  | scalar (src : String)            -- `m(p->src)` / `m(p.src)`: the same value
+  | string (src : String)            -- `m(p->src)` with `m` a `std::string` and `src` a `char *`
+  | range (src count : String)       -- `m(p->src, p->src + p->count)`: the first `count` elements, in order
+  | atoms (src count : String)       -- `m(_create_atom_vector(p->src, p->count))`
+  | param (i : Nat)                  -- `m(<i-th constructor parameter>)`
+  | sizeOf (i : Nat)                 -- `m(<i-th constructor parameter>.size())`
+  | adopt                            -- `cs(p)`: the pointer itself is kept
+  | other
+  deriving DecidableEq, Repr
+
+/-- a constructor of a class of the header: the class, the parameter list, what its single parameter is (a C struct,
+    "self" for the copy constructor, "" for the public constructor from values) and the member initialisers in order -/
+structure ClassMap where
+  cls : String
+  sig : String
+  src : String
+  inits : List (String × FInit)
+  deriving DecidableEq, Repr
+
+inductive CFieldKind where
+  | scalar | string | array | atoms | other
+  deriving DecidableEq, Repr
+
+/-- a C struct of include/*.h with its fields in declaration order (`array`: `int *` / `double *`, `atoms`: `Crystal_Atom *`) -/
+structure CStruct where
+  name : String
+  fields : List (String × CFieldKind)
+  deriving DecidableEq, Repr
+
+/-- right-hand side of an assignment `cs->f = …` in the public constructor of `Crystal::Struct` -/
+inductive CsSrc where
+  | param (i : Nat)                -- the i-th constructor parameter
+  | member (m : String)            -- the member `m` of the object under construction
+  | strdupParam (i : Nat)          -- `xrl_strdup(<i-th parameter>.c_str())`
+  | allocStruct                    -- `xrl_malloc(sizeof(Crystal_Struct))`
+  | allocAtoms (count : CsSrc)     -- `xrl_malloc(sizeof(Crystal_Atom) * count)`
+  | other
+  deriving DecidableEq, Repr
+
+/-- `cs-><arr>[i].<fld> = <vec>[i].<src>` inside the copy loop of the public constructor -/
+structure AtomAssign where
+  arr : String
+  fld : String
+  src : String
+  vec : CsSrc
+  deriving DecidableEq, Repr
+
+/-- body of the public constructor: the assignments to `cs` / `cs->f` in order, and the loops (bound, assignments) -/
+structure OwnCtor where
+  sig : String
+  assigns : List (String × CsSrc)
+  loops : List (CsSrc × List AtomAssign)
+  deriving DecidableEq, Repr
+
+/-- a helper of the header that calls no C function (`_create_atom_vector`): its result as a term over its parameters -/
+structure Helper where
+  name : String
+  ret : RetE
+  deriving DecidableEq, Repr
+
 structure CProto where
   name : String
   ret : Ty
@@ -197,9 +276,20 @@ structure Wrapper where
   args : List Arg        -- arguments of that call, in order
   checked : Bool         -- the statement after the call is `_process_error(error)`
   release : String       -- how the C result is released: "" (nothing to release), the release function, "adopt"
+  ret : RetE             -- the value handed back, as a term over the C result
   deriving DecidableEq, Repr
 
 def Wrapper.name (w : Wrapper) : String := w.scope ++ w.base ++ w.sig
+
+/-- The protocol as one table entry describes it: `_process_error(error)` is consulted only if the entry says the
+    statement is there.  Without it the wrapper goes on to the return expression whatever C reported, and the error
+    object (if any) stays behind. -/
+def wrapEntry {A V W : Type} (pe : PE) (w : Wrapper) (cv : Conv V W) (f : CFun A V) (a : A) : WRes W :=
+  if w.checked then wrap pe cv f a
+  else
+    let r := f a
+    { out := .ok (cv.conv r.val),
+      live := r.kept + (if cv.releases then 0 else r.resBlocks) + (match r.slot with | .empty => 0 | .full _ => errBlocks) }
 
 def CProto.hasErr (p : CProto) : Bool := p.params.contains Ty.errpp
 
